@@ -46,6 +46,16 @@ func topLevel(fn *ssa.Function) *ssa.Function {
 	return fn
 }
 
+// enclosedBy: fn is outer or a function literal nested (at any depth) in it.
+func enclosedBy(fn, outer *ssa.Function) bool {
+	for f := fn; f != nil; f = f.Parent() {
+		if f == outer {
+			return true
+		}
+	}
+	return false
+}
+
 // ---------------------------------------------------------------------------------------------
 // callee resolution
 
